@@ -1,6 +1,6 @@
 #!/bin/bash
 # usage: tools/sweep.sh "<seeds>" [tier]  – runs every registered check at the given seeds; prints one line per run
-cd /verif
+cd "$(dirname "$0")/.."
 tier=${2:-quick}
 for s in $1; do
   for p in C01 C02 C03 C04 C05 C06 C07 C08 C09 C10 C11 C12 C13 C14 C15 C16 C17; do
